@@ -649,6 +649,59 @@ impl SchedX {
                     finish: Box::new(move || final_check(c3, dir, Some(0), &[])),
                 }
             }
+            // a prepared changeset (base v1) ∥ rollback(1) [∥ a reader]: the two writers must
+            // serialise — commit then rollback (the rollback undoes THAT commit: v1), or rollback
+            // then commit (the changeset is stale now and must be refused: v0)
+            "H8" | "H8r" | "H8ov" => {
+                let (c, dir) = self.base_ctx(&[0, 1]);
+                let fin = if name == "H8ov" { None } else { Some(prepared(&c.n, 2)) };
+                let ov = if name == "H8ov" { Some(prepared_overlay(&c.n, 2)) } else { None };
+                let (c1, c2) = (c.clone(), c.clone());
+                let mut threads: Vec<Box<dyn FnOnce() + Send>> = vec![
+                    Box::new(move || {
+                        let r = match (fin, ov) {
+                            (Some(f), _) => f.commit(&c1.n).map_err(|e| format!("{e:#}")),
+                            (_, Some(o)) => o.commit(&c1.n).map_err(|e| format!("{e:#}")),
+                            _ => unreachable!(),
+                        };
+                        c1.ob(format!("W:{}", if r.is_ok() { "won" } else { "rejected" }));
+                        drop(c1);
+                    }),
+                    Box::new(move || {
+                        match c2.n.rollback(1) {
+                            Ok(()) => c2.ob("B:ok".into()),
+                            Err(e) => c2.err(format!("rollback(1) failed: {e:#}")),
+                        }
+                        drop(c2);
+                    }),
+                ];
+                if name == "H8r" {
+                    let c3 = c.clone();
+                    threads.push(Box::new(move || reader(&c3, "R", &[0, 1, 2])));
+                }
+                Execution {
+                    threads,
+                    finish: Box::new(move || {
+                        let obs = c.obs.lock().unwrap().clone();
+                        let won = obs.iter().any(|o| o == "W:won");
+                        // commit accepted ⇒ it ran first and the rollback undid it: v1;
+                        // commit refused ⇒ the rollback ran first: v0
+                        let want = if won { 1 } else { 0 };
+                        let r = final_check(c, dir.clone(), Some(want), &[])?;
+                        // and the rollback history is that serial order's: one more rollback is
+                        // possible exactly in the first case (v1 → v0)
+                        let n = reopen_retry(&dir)?;
+                        if won {
+                            n.rollback(1).map_err(|e| format!("rollback(1) after commit;rollback failed: {e:#}"))?;
+                            let a = n.read(ka()).unwrap().map(|v| v[0]);
+                            if a != Some(0) {
+                                return Err(format!("a further rollback(1) restored v{a:?} instead of v0"));
+                            }
+                        }
+                        Ok(r)
+                    }),
+                }
+            }
             // one thread holding two overlapping sessions ∥ writer
             "H6" => {
                 let (c, dir) = self.base_ctx(&[0]);
@@ -1527,8 +1580,8 @@ impl Engine for SchedX {
         let thorough = tier == "thorough";
         let (harnesses, rule): (Vec<&str>, &str) = match prop {
             "C15" => (
-                vec!["H1", "H2", "H3", "H3nb", "H3ov", "H4", "H5", "H6", "H7"],
-                "schedx: closed harnesses of 2–3 real threads on two colliding keys (same value leaf, same merkle page), values stamped with the writer's version, rollback enabled: H1 reader∥blocking writer; H2 reader∥non-blocking writer (prepared changeset, retried blocking when handed back); H3/H3nb/H3ov two writers with changesets on one base (blocking / non-blocking / overlay) followed by reopen and rollback(1); H4 reader∥rollback; H5 reader∥writer∥writer; H6 one thread with two overlapping sessions∥writer; H7 two threads proving different keys (present and absent) through ONE shared session on a cold store, with scheduling points at every I/O submission and every wait for a completion of the calling threads (the scheduler lets outstanding reads complete before it decides, so the enabled set does not depend on I/O speed). EVERY schedule of the visible points (API lock acquisitions with parking_lot's writer-preferring FIFO fairness modelled in the scheduler, the read-transaction wait, harness points between session operations) with ≤c preemptions is executed on a fresh store, c = 0,1,2 (thorough 3). Oracle per schedule: terminates (no enabled thread = deadlock); all reads and the proof of one session agree with one committed version and with session.prev_root(); exactly one of two competing changesets wins; final state, root and state after reopen are the winner's; rollback(1) restores the base. One case = one harness × one bound; evaluations = cases, transitions = scheduler steps, states = distinct schedules (trace digests).",
+                vec!["H1", "H2", "H3", "H3nb", "H3ov", "H4", "H5", "H6", "H7", "H8", "H8ov", "H8r"],
+                "schedx: closed harnesses of 2–3 real threads on two colliding keys (same value leaf, same merkle page), values stamped with the writer's version, rollback enabled: H1 reader∥blocking writer; H2 reader∥non-blocking writer (prepared changeset, retried blocking when handed back); H3/H3nb/H3ov two writers with changesets on one base (blocking / non-blocking / overlay) followed by reopen and rollback(1); H4 reader∥rollback; H5 reader∥writer∥writer; H6 one thread with two overlapping sessions∥writer; H8/H8ov/H8r a changeset or overlay prepared on the current state ∥ rollback(1) [∥ a reader]: the writers serialise — commit then rollback (final = the state before the commit, one further rollback possible) or rollback then commit (the changeset is refused, final = the rolled-back state); H7 two threads proving different keys (present and absent) through ONE shared session on a cold store, with scheduling points at every I/O submission and every wait for a completion of the calling threads (the scheduler lets outstanding reads complete before it decides, so the enabled set does not depend on I/O speed). EVERY schedule of the visible points (API lock acquisitions with parking_lot's writer-preferring FIFO fairness modelled in the scheduler, the read-transaction wait, harness points between session operations) with ≤c preemptions is executed on a fresh store, c = 0,1,2 (thorough 3). Oracle per schedule: terminates (no enabled thread = deadlock); all reads and the proof of one session agree with one committed version and with session.prev_root(); exactly one of two competing changesets wins; final state, root and state after reopen are the winner's; rollback(1) restores the base. One case = one harness × one bound; evaluations = cases, transitions = scheduler steps, states = distinct schedules (trace digests).",
             ),
             "C20" => (
                 vec!["O1", "O2", "O2x3", "O3", "O4", "L1", "L2", "L3", "L4"],
@@ -1541,7 +1594,7 @@ impl Engine for SchedX {
         for b in bounds {
             for h in &harnesses {
                 // three contenders: one preemption less (the schedule count grows fastest there)
-                if (*h == "O2x3" || *h == "H5") && b + 1 > if thorough { 3 } else { 2 } {
+                if (*h == "O2x3" || *h == "H5" || *h == "H8r") && b + 1 > if thorough { 3 } else { 2 } {
                     continue;
                 }
                 // fixed-order harnesses: once
